@@ -52,6 +52,7 @@ def check(ctx, F):
         check_record(ctx, F)
         check_pin(ctx, F, E)
         check_pin_coverage(ctx, F)
+        check_pin_rounds(ctx, F)
         check_replay(ctx, F)
 
 
@@ -348,6 +349,59 @@ def check_pin_coverage(ctx, F):
             ctx.violation("C09.pin", site + "/coverage", "%s (%s)" % (site, F.floc(fid)),
                           "%s picks the sub-state from reports (%d poll(s)) and never hands the request down: the sub-state it activates (and what is "
                           "nested below it) is not pinned, lastTransitionTo() of a state this request activated is null" % (site, rep), {})
+
+
+def check_pin_rounds(ctx, F):
+    """pins are written while a round's requests are applied, before the round is judged: they must follow its fate.  On every path through the
+    round loops of processTransitions / initialEnter a vetoed round (G-) and a round that changes nothing (N-) are followed - before the next
+    request is applied - by a restore of transitionTargets from a snapshot local, and an approved round (G+) by an update of that snapshot;
+    clearing the table instead drops the pins of the rounds approved earlier in the step, doing nothing leaves pins that point past (or, after
+    a later approved round, into) the record"""
+    from .C04 import tokens
+    for fid, b in insts(F, "R_", {"processTransitions", "initialEnter"}):
+        site = "R_::" + b["name"]
+        bads = set()
+        n = 0
+        for p in sym_paths(F, fid, 2):
+            ctx.paths += 1
+            pending = None       # "veto" / "no change" / "approved" awaiting its pin action
+            for ev in p:
+                kind = None
+                if ev[0] == "assume":
+                    t = ev[2]
+                    if "operator!=" in t and "registry" in t and not ev[3]:
+                        kind = "nochange"
+                    elif "approvedBy" in t:
+                        kind = "approved" if ev[3] else "veto"
+                if kind:
+                    if pending and pending != "approved0":
+                        bads.add(pending)
+                    # the very first judgement of initialEnter (the default activation, before the loop) pins nothing
+                    pending = kind
+                    n += 1
+                    continue
+                if ev[0] == "write" and (ev[2] or "").endswith("._core.transitionTargets") and (ev[3] or "").startswith("L:"):
+                    if pending in ("veto", "nochange"):
+                        pending = None
+                elif ev[0] == "write" and (ev[2] or "").startswith("L:") and (ev[3] or "").endswith("._core.transitionTargets"):
+                    if pending == "approved":
+                        pending = None
+                elif ev[0] == "call" and ev[2] is not None and F.fn(ev[2])["name"] in ("applyRequest", "deepChangeToRequested", "deepEnter"):
+                    if pending:
+                        bads.add(pending)
+                        pending = None
+                elif ev[0] == "call" and ev[2] is not None and F.fn(ev[2])["name"] == "backup" and pending == "approved" and b["name"] == "initialEnter" and n == 1:
+                    pending = None      # initialEnter: the snapshot is declared right after the first backup
+        if n:
+            ctx.instance("C09.pin", site + "/rounds", {"function": site, "loc": F.floc(fid), "judgements_on_paths": n})
+            bad = next((k for k in ("veto", "nochange", "approved") if k in bads), None)
+            if bad:
+                ctx.violation("C09.pin", site + "/rounds", "%s (%s)" % (site, F.floc(fid)),
+                              {"veto": "after a vetoed round the pin table is not restored to its state at the last approval (clearing it drops the pins of the "
+                                       "rounds approved earlier in the step)",
+                               "nochange": "a round that changes nothing is dropped, but the pins its requests wrote stay (they point past the record)",
+                               "approved": "after an approved round the pin snapshot is not updated: a later veto would roll the approved pins back"}[bad] +
+                              ": lastTransitionTo() of a state the single approved request activated is null or wrong", {})
 
 
 def check_pin(ctx, F, E):
